@@ -537,7 +537,7 @@ func init() {
 				"stores built with reflect.StructOf have no accessor methods",
 				"scenarios are sampled; fault positions within a scenario are enumerated exhaustively",
 			},
-			QuickRuns:    1500,
+			QuickRuns:    3000,
 			ThoroughRuns: 1 << 30,
 			ThoroughTime: 10 * time.Minute,
 			Exhaustive:   false,
